@@ -1437,6 +1437,82 @@ def d25_every_load_stage_is_trapped(chk: Check) -> None:
                          "failure status".format(exc))
 
 
+def d26_scalar_printed_with_line_breaks_marked(chk: Check) -> None:
+    """yaml-get prints one line per matched scalar; a line break inside the
+    value is shown as the two characters backslash-n -- every one of them,
+    including a trailing one, and nothing else is touched.  `splitlines()`
+    looks like the same thing but drops a final line break (so `|` and
+    `|-` print alike), collapses CR-LF and also splits at VT, FF, FS..RS,
+    NEL, LS and PS."""
+    prog = chk.prog
+    chk.rule("C16-D26", "the scalar print of yaml-get rewrites str(node) "
+             "only by .replace(<line break>, <backslash n>)", floor=1)
+    fi = prog.func("yaml_get.main")
+    prints = [c for c in walk_local(fi.node) if isinstance(c, ast.Call) and
+              src(c.func) == "print" and c.args and
+              "json.dumps" not in src(c)]
+    cand = [c for c in prints if "str(" in src(c)]
+    if not cand:
+        raise AnalysisError("scalar print of yaml-get not found")
+    for c in cand:
+        methods = [m for m in ast.walk(c) if isinstance(m, ast.Call) and
+                   isinstance(m.func, ast.Attribute) and
+                   m.func.attr not in ("format",)]
+        bad = [m for m in methods if not (
+            m.func.attr == "replace" and len(m.args) == 2 and
+            isinstance(m.args[0], ast.Constant) and m.args[0].value == "\n"
+            and isinstance(m.args[1], ast.Constant) and
+            m.args[1].value == "\\n")]
+        text = "yaml-get: {}".format(src(c)[:60])
+        if bad:
+            chk.fail("C16-D26", fi, bad[0], text,
+                     "the text of the scalar goes through `.{}()`: more "
+                     "than the line breaks is rewritten (a trailing line "
+                     "break vanishes, other Unicode line boundaries are "
+                     "turned into \\n)".format(bad[0].func.attr))
+        else:
+            chk.ok("C16-D26", fi, c, text, "line breaks only")
+
+
+def d27_status_functions_return_on_every_path(chk: Check,
+                                              funcs: List[FuncInfo]) -> None:
+    """A helper whose result is an exit status returns one on *every*
+    path.  Falling off the end returns None: `None != 0` is true, so the
+    caller records it over an earlier failure code, `None == 0` is false,
+    so follow-up steps gated on success are skipped, and `sys.exit(None)`
+    exits 0 -- `yaml-validate bad.yaml good.yaml` reports success."""
+    from sa.guards import terminates
+    chk.rule("C16-D27", "a tool function that returns a value somewhere "
+             "returns (or raises / exits) at the end of every path",
+             floor=20)
+    n = 0
+    for fi in funcs:
+        if any(isinstance(y, (ast.Yield, ast.YieldFrom))
+               for y in walk_local(fi.node)):
+            continue
+        valued = [r for r in walk_local(fi.node) if isinstance(r, ast.Return)
+                  and r.value is not None and src(r.value) != "None"]
+        if not valued:
+            continue
+        n += 1
+        body = [st for st in fi.node.body]
+        if terminates(body) or (body and isinstance(body[-1], ast.Expr) and
+                                isinstance(body[-1].value, ast.Call) and
+                                src(body[-1].value.func) in ("sys.exit",
+                                                             "exit")):
+            chk.ok("C16-D27", fi, fi.node, fi.short, "no implicit None",
+                   False)
+        else:
+            chk.fail("C16-D27", fi, valued[-1], "{}: falls off the end"
+                     .format(fi.short),
+                     "some path through {} reaches the end of the function "
+                     "without a return: the caller gets None where it "
+                     "expects a status (None != 0, yet sys.exit(None) is "
+                     "exit status 0)".format(fi.short))
+    if n < 20:
+        raise AnalysisError("value-returning tool functions: {}".format(n))
+
+
 def d17_loaded_means_a_document(chk: Check) -> None:
     """yaml-merge takes element [0] of its document lists (the prime
     left-hand document, the document whose type decides the output format).
@@ -1522,6 +1598,8 @@ def run(chk: Check) -> None:
     d23_logger_reads_live_options(chk)
     d24_strict_decoding(chk)
     d25_every_load_stage_is_trapped(chk)
+    d26_scalar_printed_with_line_breaks_marked(chk)
+    d27_status_functions_return_on_every_path(chk, funcs)
     from rules.shared import shared_state_rule
     shared_state_rule(chk, "C16-D12", sorted({f.module.relpath
                                           for f in funcs}), 40)
